@@ -125,11 +125,13 @@ CHECK_DEADLOCK FALSE
     return [list(t) for t in out]
 
 
-def gen_alloc(chk: Check, maxlen: int) -> list[dict]:
+def gen_alloc(chk: Check, maxlen: int, taglen: int | None = None) -> list[dict]:
+    taglen = maxlen - 1 if taglen is None else taglen
     cfg = f"""SPECIFICATION Spec
 CONSTANTS
  MaxLen = {maxlen}
  NsKinds = {tla(set(NS_KINDS))}
+ TagLen = {taglen}
 CHECK_DEADLOCK FALSE
 """
     r = run_tlc(chk.scratch, "Gen_Alloc", cfg, workers=8)
@@ -247,7 +249,18 @@ def build_doc(sc: dict) -> dict | None:
     if kind == "ops":
         paths = {f"/o{i}": {"get": {"operationId": n, "tags": ["T"], "summary": f"OPTOK{i}", "responses": {"204": {"description": "ok"}}}} for i, n in enumerate(names)}
         return concretise.wrap({}, paths)
+    if kind == "tagops":
+        # one operation per name, tagged as the scenario says; plus one single-tagged "beacon" operation per tag, so that
+        # the client class of a tag is identified by the beacon it contains and not by a sanitiser
+        paths = {f"/o{i}": {"get": {"operationId": n, "tags": list(sc["tags"][i]), "summary": f"OPTOK{i}", "responses": {"204": {"description": "ok"}}}} for i, n in enumerate(names)}
+        for j, tag in enumerate(tags_of(sc)):
+            paths[f"/beacon{j}"] = {"get": {"operationId": f"zzbeacon{j}", "tags": [tag], "summary": f"OPTOK9{j}", "responses": {"204": {"description": "ok"}}}}
+        return concretise.wrap({}, paths)
     raise ValueError(kind)
+
+
+def tags_of(sc: dict) -> list[str]:
+    return sorted({x for tl in sc["tags"] for x in tl})
 
 
 def _ev(ns: str, spec: str, ident: str) -> dict:
@@ -346,6 +359,28 @@ def observe(sc: dict, o: dict) -> tuple[dict | None, str]:
             req["ops"] = [cps(n) for n in names]
             present["ops"] = [cps(fn) for fn, _ in live]
             back["ops"] = [[cps(fn), cps(token[t])] for fn, info in live for t in info["tokens"] if t in token]
+    elif kind == "tagops":
+        eps = nam.get("endpoints", [])
+        if not eps or not all(e["parse_ok"] for e in eps):
+            return None, "unparseable"
+        if not all(e["import_ok"] for e in eps):
+            return None, "unimportable"
+        token = {f"OPTOK{i}": n for i, n in enumerate(names)}
+        for j, tag in enumerate(tags_of(sc)):
+            beacon = f"OPTOK9{j}"
+            nsid = f"tagops:{tag}"
+            hits = [(e, c) for e in eps for c in e["classes"] if any(beacon in m["tokens"] for m in c["methods"])]
+            if len(hits) != 1:
+                return None, "client_class_not_found"
+            e, c = hits[0]
+            for m in c["methods"]:  # every `def` of the client class, in source order, duplicates kept
+                for tk in m["tokens"]:
+                    if tk in token:
+                        ev.append(_ev(nsid, token[tk], m["name"]))
+            live = e["live"].get(c["name"], {})
+            req[nsid] = [cps(n) for i, n in enumerate(names) if tag in sc["tags"][i]]
+            present[nsid] = [cps(fn) for fn in live]
+            back[nsid] = [[cps(fn), cps(token[tk])] for fn, info in live.items() for tk in info["tokens"] if tk in token]
     return {"ev": ev, "req": req, "present": present, "back": back}, ""
 
 
@@ -406,7 +441,7 @@ def part_ii(chk: Check, scens: list[dict], label: str = "packages") -> None:
         if t is None:
             key = f"{why}[{sc['ns']}]"
             skipped[key] = skipped.get(key, 0) + 1
-            if why in ("wiremap_unreadable", "method_not_found", "ambiguous"):
+            if why in ("wiremap_unreadable", "method_not_found", "ambiguous", "client_class_not_found"):
                 chk.note_drift(f"{label}: observer could not read the {sc['ns']} namespace of {sc['names']} ({why})")
             continue
         t["id"] = j["id"]
@@ -430,7 +465,7 @@ def part_ii(chk: Check, scens: list[dict], label: str = "packages") -> None:
         chk.clause("C20.dropped", nreq)
         chk.clause("C20.merged", nreq)
         if len(sc["names"]) >= 2:
-            chk.nontrivial({"ns": sc["ns"], "names": sc["names"]})
+            chk.nontrivial({"ns": sc["ns"], "names": sc["names"], "tags": sc.get("tags", [])})
         for f in v["fails"]:
             scen = {"part": "ii", "scenario": sc, "spec": d}
             if f["clause"] == "C20.unstable":
@@ -444,7 +479,11 @@ def part_ii(chk: Check, scens: list[dict], label: str = "packages") -> None:
                 chk.fail(f["clause"], loc, scen, f"{f['ns']}: {txt(e['spec'])!r} -> {txt(e['ident'])!r}")
                 continue
             who = partner(t, f)
-            loc = {"ns": f["ns"], "names_suffixed": any(SUFFIXED.search(n) for n in who)}
+            loc = {"ns": f["ns"].split(":")[0], "names_suffixed": any(SUFFIXED.search(n) for n in who)}
+            if ":" in f["ns"]:
+                # through which tag positions the names involved reach this client class (first tag = 1)
+                tag = f["ns"].split(":")[1]
+                loc["tag_positions"] = sorted({sc["tags"][sc["names"].index(n)].index(tag) + 1 for n in who if n in sc["names"] and tag in sc["tags"][sc["names"].index(n)]})
             if f["clause"] == "C20.dropped":
                 loc["input_class"] = f["cls"]
                 got = {txt(e["spec"]) for e in t["ev"] if e["ns"] == f["ns"]}
@@ -464,7 +503,7 @@ def run(chk: Check) -> None:
     chk.cov["rule"] = (
         f"(i) every string of length <={k1} over the alphabet {{a,B,1,_,-,space,.,$,U+00E9,U+540D}} plus 10 case/separator variants of every "
         f"keyword, through the 10 derivations on the generation path; (ii) every allocation order (sequence without repetition) of "
-        f"length <={k2} from 5 colliding families in each of 5 namespace kinds, generated + imported; non-trivial = input that is not "
+        f"length <={k2} from 5 colliding families in each of 5 namespace kinds, plus colliding operationIds (2..{k2 - 1} of them) reaching one client class through different tag positions (tag lists [T], [U,T], [T,U], [V,T]), generated + imported; non-trivial = input that is not "
         f"already an ASCII identifier (i) / namespace with >=2 names (ii)"
     )
     chk.assumptions += [
